@@ -16,6 +16,15 @@ GROUPS.append(G("rep_IRPN_count", "harness/C20/h_as_include.c", "h_IRPN_count", 
 GROUPS.append(G("rep_ExpandSHIFT", SRC, "h_ExpandSHIFT", enforce=[], link=["asmdef.c"], stubs=["stubs/gerr.c"], unwind=8, timeout=600, dfcc=False,
                 object_bits=12, defs=["-DSTRINGSIZE=64"], functions=["ExpandSHIFT"], replace_calls=["ComputeMacroStrings:verif_ComputeMacroStrings"],
                 bounded="SHIFT directly in the macro body or one REPT/IRP level deep"))
+MAC = dict(src="harness/C11/h_as_macro.c", enforce=[], link=["asmdef.c", "strcomp.c", "stringlists.c"], stubs=["stubs/gerr.c"], unwind=14, timeout=900, dfcc=False,
+           drop_unused=True, object_bits=12, flags=["--slice-formula"])
+GROUPS.append(G("mac_ComputeMacroStrings", entry="h_ComputeMacroStrings", defs=["-DSTRINGSIZE=64", "-DVERIF_PC=0", "-DVERIF_NARGS=0"], functions=["ComputeMacroStrings"],
+                bounded="at most 3 remaining arguments of at most 2 characters", **MAC))
+for pc in (0, 1, 2):
+    for na in (0, 1, 2, 3):
+        GROUPS.append(G("mac_ExpandMacro_p%d_a%d" % (pc, na), entry="h_ExpandMacro", defs=["-DSTRINGSIZE=64", "-DVERIF_PC=%d" % pc, "-DVERIF_NARGS=%d" % na],
+                        functions=["ExpandMacro", "GenerateProcessor"],
+                        bounded="%d formal parameter(s) (P, Q; arbitrary one-character defaults), %d argument(s) of at most 3 characters over { P Q = x }" % (pc, na), **MAC))
 for e in ("IsValidParameterName", "SetToken"):
     GROUPS.append(G("sub_" + e, "harness/C19/h_asmsub.c", "h_" + e, enforce=[], link=[], stubs=["stubs/gerr.c"], unwind=4, timeout=300,
                     dfcc=False, object_bits=12, functions=[e, "CompressLine_NErl"] if e == "IsValidParameterName" else [e]))
